@@ -46,6 +46,9 @@ fn unlock() {
 unsafe impl GlobalAlloc for VAlloc {
     unsafe fn alloc(&self, layout: Layout) -> *mut u8 {
         let p = System.alloc(layout);
+        if p.is_null() && layout.size() != 0 {
+            oom(layout.size());
+        }
         if !p.is_null() {
             LIVE_BLOCKS.fetch_add(1, Ordering::Relaxed);
             LIVE_BYTES.fetch_add(layout.size() as isize, Ordering::Relaxed);
@@ -86,6 +89,9 @@ unsafe impl GlobalAlloc for VAlloc {
     }
     unsafe fn realloc(&self, ptr: *mut u8, layout: Layout, new_size: usize) -> *mut u8 {
         let p = System.realloc(ptr, layout, new_size);
+        if p.is_null() && new_size != 0 {
+            oom(new_size);
+        }
         if !p.is_null() {
             lock();
             if tab_remove(ptr as usize) {
@@ -95,6 +101,23 @@ unsafe impl GlobalAlloc for VAlloc {
             LIVE_BYTES.fetch_add(new_size as isize - layout.size() as isize, Ordering::Relaxed);
         }
         p
+    }
+}
+
+/// where the current case goes when an allocation fails (`<out>.abort`, set once by main)
+pub static OOM_PATH: std::sync::OnceLock<String> = std::sync::OnceLock::new();
+static IN_OOM: AtomicBool = AtomicBool::new(false);
+/// An allocation the system refuses makes `handle_alloc_error` abort the process: the case that asked
+/// for it is saved in replay format and the process exits with status 78, like a panic that cannot unwind.
+fn oom(size: usize) {
+    if IN_OOM.swap(true, Ordering::Relaxed) {
+        return;
+    }
+    TRACK.store(false, Ordering::Relaxed);
+    if let Some(path) = OOM_PATH.get() {
+        let text = crate::runner::CUR.try_lock().map(|c| c.clone()).unwrap_or_default();
+        let _ = std::fs::write(path, format!("{}# allocation of {} bytes refused\n", text, size));
+        std::process::exit(78);
     }
 }
 
